@@ -1127,6 +1127,15 @@ pub struct Item {
     pub bytes: Vec<u8>,
 }
 
+/// Bytes an absolute offset addresses; when the range leaves the file the item says so instead of failing,
+/// so that a corrupted offset shows up as changed media rather than as an unparseable file.
+fn deref(label: String, d: &[u8], o: usize, n: usize) -> Item {
+    match o.checked_add(n).filter(|e| *e <= d.len()) {
+        Some(e) => item(label, &d[o..e]),
+        None => item(format!("{label} OUTSIDE FILE"), format!("{o}+{n} > {}", d.len()).as_bytes()),
+    }
+}
+
 fn item(label: impl Into<String>, bytes: &[u8]) -> Item {
     Item { label: label.into(), bytes: bytes.to_vec() }
 }
@@ -1170,7 +1179,7 @@ fn tiff_ifd_media(t: &Tiff, d: &[u8], ifd: &TiffIfd, path: &str, depth: usize, o
             for i in 0..e.count {
                 let o = t.value(d, e, i)? as usize;
                 let n = t.value(d, counts, i)? as usize;
-                out.push(item(format!("{lbl}[{i}] -> data"), get(d, o..o.saturating_add(n))?));
+                out.push(deref(format!("{lbl}[{i}] -> data"), d, o, n));
             }
         } else if TIFF_SUBIFD_TAGS.contains(&e.tag) {
             for i in 0..e.count {
@@ -1205,7 +1214,7 @@ fn bmff_media(d: &[u8], b: &BBox, path: &str, all: &[BBox], out: &mut Vec<Item>)
                     let lbl = format!("{me} item{} cm{} extent{k} len{el} -> data", it.id, it.construction_method);
                     if it.construction_method == 0 {
                         let o = (it.base_offset + eo) as usize;
-                        out.push(item(lbl, get(d, o..o.saturating_add(*el as usize))?));
+                        out.push(deref(lbl, d, o, *el as usize));
                     } else {
                         out.push(item(lbl, &eo.to_be_bytes()));
                     }
@@ -1236,7 +1245,7 @@ fn bmff_chunk_refs(d: &[u8], boxes: &[BBox], out: &mut Vec<Item>) -> Res<()> {
             let len: usize = sizes.iter().skip(si).take(spc).map(|x| *x as usize).sum();
             si += spc;
             let o = *off as usize;
-            out.push(item(format!("track{ti} chunk{k} len{len} -> data"), get(d, o..o.saturating_add(len))?));
+            out.push(deref(format!("track{ti} chunk{k} len{len} -> data"), d, o, len));
         }
     }
     Ok(())
